@@ -47,7 +47,7 @@ def run(ctx):
     def replay(mode, p, traces, r1cs):
         nonlocal sessions_total, bad
         # chunk sessions so a single harness process does not run too long
-        res = ctx.run_vh(["c05"], dict(mode=mode, p=str(p), r1cs=r1cs, sessions=traces))
+        res = ctx.run_vh(["c05"], dict(mode=mode, p=str(p), r1cs=r1cs, sessions=traces), tags=("g_poseidon",))
         for x in res:
             if x.get("kind") == "spec-vs-reference":
                 raise Infra("spec-vs-reference disagreement (spec bug): %s" % json.dumps(x)[:400])
@@ -105,7 +105,7 @@ def run(ctx):
 
 def replay(ctx, path):
     case = json.load(open(path))
-    res = ctx.run_vh(["c05"], case["cases"])
+    res = ctx.run_vh(["c05"], case["cases"], tags=("g_poseidon",))
     bad = [x for x in res if not x["ok"]]
     for x in bad:
         print("REPRODUCED:", json.dumps(x)[:600])
